@@ -57,6 +57,13 @@ Walk(sch, node, path, i) ==
     ELSE LET nx == Pass(sch, sch.structs[node.n].fields, 1, path[i], node) IN
          IF nx = RaiseNode THEN RaiseNode ELSE Walk(sch, nx, path, i + 1)
 
+(* fcp.xpath.Xpath: the text form  root:p1/p2/..  (str(), and what the constructor splits again); append / the division operator
+   add one name at the end *)
+RECURSIVE Join(_, _)
+Join(path, i) == IF i = Len(path) THEN path[i] ELSE path[i] \o "/" \o Join(path, i + 1)
+Text(root, path) == root \o ":" \o Join(path, 1)
+Appended(xp, name) == [root |-> xp.root, path |-> Append(xp.path, name)]
+
 (* the regular expression is matched as a PREFIX of "root:p1/p2/..": with names over word characters (or empty) it accepts
    exactly when the root and the first path element are not empty *)
 WellFormedText(root, path) == root # "" /\ path[1] # ""
